@@ -43,6 +43,23 @@ TraceSetEasy ==
         /\ Report(e, Failing({<<"C10.raised", e.exc = "">>,
                               <<"C10.state_after_assignment", e.exc # "" \/ ObjOfRec(e.post) = o>>}))
 
+TraceSetConfig ==
+  /\ IsEvent("SetConfig")
+  /\ LET e == Log[l]
+         o == [st[e.h] EXCEPT !.sc = e.sc, !.ec = e.ec]
+     IN /\ st' = [st EXCEPT ![e.h] = o]
+        /\ memo' = SelectSeq(memo, LAMBDA m : m[1][1] # e.h)
+        /\ Report(e, Failing({<<"C10.raised", e.exc = "">>,
+                              <<"C10.state_after_assignment", e.exc # "" \/ ObjOfRec(e.post) = o>>}))
+TraceSetScores ==
+  /\ IsEvent("SetScores")
+  /\ LET e == Log[l]
+         o == IF e.cls = "pos" THEN [st[e.h] EXCEPT !.pos = e.seq] ELSE [st[e.h] EXCEPT !.neg = e.seq]
+     IN /\ st' = [st EXCEPT ![e.h] = o]
+        /\ memo' = SelectSeq(memo, LAMBDA m : m[1][1] # e.h)
+        /\ Report(e, Failing({<<"C10.raised", e.exc = "">>,
+                              <<"C10.state_after_assignment", e.exc # "" \/ ObjOfRec(e.post) = o>>}))
+
 TraceQuery ==
   /\ IsEvent("Query") /\ UNCHANGED st
   /\ LET e == Log[l]
@@ -65,7 +82,7 @@ TraceQuery ==
              <<"C10.repeatable", ~ok \/ ~seen \/ e.out = prev>>,
              <<"C10.independent_of_call_history", ~ok \/ (e.fresh_out = e.out /\ e.fresh_exact)>>}))
 
-Next == TraceNew \/ TraceSwap \/ TraceQuery \/ TraceSetEasy
+Next == TraceNew \/ TraceSwap \/ TraceQuery \/ TraceSetEasy \/ TraceSetConfig \/ TraceSetScores
 Spec == Init /\ [][Next]_vars
 AllConsumed == TLCGet("stats").diameter - 1 = Len(Log)
 =============================================================================
